@@ -107,7 +107,7 @@ def main(argv):
     elif cmd == "runall":
         tier = argv[1] if len(argv) > 1 and argv[1] in ("quick", "thorough") else "quick"
         only = [a for a in argv[1:] if a.startswith("C")]
-        names = sorted(n for n in os.listdir(SEEDED) if os.path.isdir(os.path.join(SEEDED, n)))
+        names = sorted(n for n in os.listdir(SEEDED) if os.path.isdir(os.path.join(SEEDED, n)) and not n.startswith("_"))
         if only:
             names = [n for n in names if n.split("-")[0] in only]
         man = json.load(open(os.path.join(VERIF, "MANIFEST.json")))
